@@ -58,6 +58,8 @@ func (ledger *FinalityLedger[T]) SetFinality(item T) xerrors.XError {
 	ledger.mtx.Lock()
 	defer ledger.mtx.Unlock()
 
+	// the item may be re-created after being removed in the same block.
+	ledger.finalityItems.delRemovedKey(item.Key())
 	ledger.finalityItems.setUpdatedItem(item)
 	ledger.finalityItems.setGotItem(item)
 	return nil
